@@ -107,6 +107,77 @@ def check_cvc5(obl, timeout_s=30):
     return out, time.time() - t0
 
 
+INT_DOM = [-1, 0, 1, 2, 3, 4]
+
+
+def _val_dom():
+    from . import sym
+    return [sym.mk_int(0), sym.mk_int(1), sym.mk_str('a'), sym.mk_str('b')]
+
+
+def _outer_quants(t):
+    out, seen, todo = [], set(), [t]
+    while todo:
+        x = todo.pop()
+        i = x.get_id()
+        if i in seen:
+            continue
+        seen.add(i)
+        if z3.is_quantifier(x):
+            if not x.is_lambda():
+                out.append(x)
+            continue
+        if z3.is_app(x):
+            todo.extend(x.children())
+    return out
+
+
+def expand(t, memo=None):
+    """replace every quantifier by its instances over a finite universe"""
+    from . import sym
+    import itertools
+    if memo is None:
+        memo = {}
+    qs = _outer_quants(t)
+    if not qs:
+        return t
+    pairs = []
+    for q in qs:
+        key = q.get_id()
+        if key not in memo:
+            n = q.num_vars()
+            doms = []
+            for i in range(n):
+                srt = q.var_sort(i)
+                if srt == z3.IntSort():
+                    doms.append([z3.IntVal(v) for v in INT_DOM])
+                elif srt == sym.Val:
+                    doms.append(_val_dom())
+                else:
+                    doms = None
+                    break
+            if doms is None:
+                memo[key] = z3.BoolVal(True) if q.is_forall() else z3.BoolVal(False)
+            else:
+                body = q.body()
+                insts = [expand(z3.substitute_vars(body, *reversed(combo)), memo) for combo in itertools.product(*doms)]
+                memo[key] = z3.And(insts) if q.is_forall() else z3.Or(insts)
+        pairs.append((q, memo[key]))
+    return z3.substitute(t, *pairs)
+
+
+def bounded_candidate(obl, timeout_ms=20000):
+    s = z3.Solver()
+    s.set('timeout', timeout_ms)
+    memo = {}
+    for a in obl.assumptions:
+        s.add(expand(a, memo))
+    s.add(expand(z3.Not(obl.goal), memo))
+    if s.check() == z3.sat:
+        return s.model()
+    return None
+
+
 def discharge(obl, tier='quick', second_opinion=False):
     """returns dict(status, backend, seconds, model, quantified)"""
     rl = RLIMIT_QUICK if tier == 'quick' else RLIMIT_THOROUGH
@@ -133,6 +204,15 @@ def discharge(obl, tier='quick', second_opinion=False):
         res['status'] = 'refuted'      # z3 reports sat on quantified input only after checking the model (else unknown)
         res['model'] = model
         return res
+    # candidate counter-model by finite instantiation (DESIGN 2.7 step 2): every quantifier is expanded over a small
+    # universe, the result is quantifier-free and decided; the model is only ever used to build an input that is then
+    # replayed on the real code
+    try:
+        cm = bounded_candidate(obl)
+        if cm is not None:
+            res['candidate_model'] = cm
+    except Exception as e:
+        res['candidate_error'] = f'{type(e).__name__}: {e}'
     r2, dt2 = check_cvc5(obl, 20 if tier == 'quick' else 120)
     res['cvc5'] = r2
     res['seconds'] += dt2
